@@ -59,7 +59,12 @@ fn opener_loop(dir: &Path, sh: &Shared, loops: u64, seed: u64, who: &str) -> Vec
 	let me = std::process::id() as u64;
 	for _ in 0..loops {
 		sh.at(OPENING).fetch_add(1, Ordering::SeqCst);
-		let res = Db::open(&opts);
+		// every opening mode takes part in the exclusion
+		let res = match r.below(4) {
+			0 => Db::open_read_only(&opts),
+			1 => Db::open_or_create(&opts),
+			_ => Db::open(&opts),
+		};
 		sh.at(OPENING).fetch_sub(1, Ordering::SeqCst);
 		match res {
 			Ok(db) => {
